@@ -151,6 +151,7 @@ def evaluateU (re : RegexOracle) : Expr → Opts → Any → Out
     match getValue o d sel.path with
     | .error => .err false
     | .unmodelled => .unmodelled
+    | .panic => .panic
     | .absent => .val (op == .all)
     | .present v =>
       match v with
@@ -179,12 +180,12 @@ theorem uA : evaluateU re0 ex o0 dA = .val true := by
   simp [evaluateU, ex, body, collLoop, mapBindings, evaluateMatch, getValue, resolveLocals, narrowJsonNumber, indirect,
     doMatchEqual, hasEqFn, applyEq, coerce1, strT_bne, RV.kind, GoVal.kind, Kind.isInt,
     Go.get, getLoop, getStep, getStep.applyHook, unwrapForStep, unwrapIfaceV, unwrapPtrV, getMap, coerceKey,
-    fkeyEq, keyEq, unboxKey, keyEqScalar, dA, mapSI, ea, eb, ec, strT, GoType.stringT, valueOf, o0, Opts.cfg, GoVal.toAny, strKey]
+    fkeyEq, keyEq, unboxKey, keyEqScalar, keyEqV, dA, mapSI, ea, eb, ec, strT, GoType.stringT, valueOf, o0, Opts.cfg, GoVal.toAny, strKey]
 theorem uB : evaluateU re0 ex o0 dB = .err false := by
   simp [evaluateU, ex, body, collLoop, mapBindings, evaluateMatch, getValue, resolveLocals, narrowJsonNumber, indirect,
     doMatchEqual, hasEqFn, applyEq, strT_bne, RV.kind, GoVal.kind, Kind.isInt,
     Go.get, getLoop, getStep, getStep.applyHook, unwrapForStep, unwrapIfaceV, unwrapPtrV, getMap, coerceKey,
-    fkeyEq, keyEq, unboxKey, keyEqScalar, dB, mapSI, ea, eb, ec, strT, GoType.stringT, valueOf, o0, Opts.cfg, GoVal.toAny, strKey]
+    fkeyEq, keyEq, unboxKey, keyEqScalar, keyEqV, dB, mapSI, ea, eb, ec, strT, GoType.stringT, valueOf, o0, Opts.cfg, GoVal.toAny, strKey]
 
 /-- the unsorted evaluator distinguishes two iteration orders of the same map -/
 theorem old_behaviour_not_invariant : evaluateU re0 ex o0 dA ≠ evaluateU re0 ex o0 dB := by
@@ -194,7 +195,7 @@ theorem old_behaviour_not_invariant : evaluateU re0 ex o0 dA ≠ evaluateU re0 e
 
 theorem dA_perm_dB : AnyRel PermEq dA dB := by
   refine .some (permEq_of_perm _ _ _ _ ?_ ?_ (List.Perm.swap eb ea [ec]))
-  · simp [keysDistinct, fkeyEq, keyEq, unboxKey, keyEqScalar, ea, eb, ec]
+  · simp [keysDistinct, fkeyEq, keyEq, unboxKey, keyEqScalar, keyEqV, ea, eb, ec]
   · simp [mapsOkEntries, mapsOk, keysDistinct, ea, eb, ec, mapSI]
 
 theorem dA_ne_dB : dA ≠ dB := by
